@@ -22,7 +22,7 @@ RULE = ('full product: structure {Obs, list(1..3), ndarray (2,) (2,2) (1,2,2) an
         'T<=4 and paddings, Corr N=2, nested dict} x content {single range chain, two replicas irregular+strided, several '
         'ensembles + covariance input, pure covariance dim 3, reweighted, bare name with large configuration numbers, irregular lists that fit an equally spaced list by length and end points} x '
         'magnitude {1e-12, 1, 1e12} x tag {None, str, "", 0, 1.5, False, True, list, dict} x (gz, indent) in string/file '
-        'transports; Obs.dump / Corr.dump / pickle; pandas csv and sqlite with gz on/off; dump_dict_to_json.  Every emitted '
+        'transports; members of one list / array / correlator on equally long but different configuration lists (refused or faithful); Obs.dump / Corr.dump / pickle; pandas csv and sqlite with gz on/off; dump_dict_to_json.  Every emitted '
         'document is validated against examples/json_schema.json.  Non-trivial = everything except the plain single-chain Obs '
         'with tag None')
 ASSUMPTIONS = ['fluctuations and replica means are compared to 1e-13 of the chain scale (the format stores delta + (r - value))',
@@ -242,6 +242,7 @@ def build(tier, seed):
     cases.append({'kind': 'pandas'})
     cases.append({'kind': 'dict'})
     cases.append({'kind': 'sequence'})
+    cases.append({'kind': 'misaligned'})
     return cases
 
 
@@ -274,9 +275,56 @@ def run_case(case):
                 run_dict(pe, acc, case, d)
             elif k == 'sequence':
                 run_sequence(pe, acc, case, d)
+            elif k == 'misaligned':
+                run_misaligned(pe, acc, case)
     finally:
         shutil.rmtree(d, ignore_errors=True)
     return acc
+
+
+MIS_BASE = {'irregular': [1, 2, 4, 5, 7, 8, 11, 12, 14, 19], 'strided': list(range(2, 22, 2)), 'contiguous': list(range(3, 13))}
+MIS_OTHER = {   # equally long, same first and last configuration, different interior / shifted / different ends
+    'interior': {'irregular': [1, 2, 4, 6, 7, 8, 11, 12, 14, 19], 'strided': [2, 3, 6, 8, 10, 12, 14, 16, 18, 20], 'contiguous': None},
+    'interior-last-but-one': {'irregular': [1, 2, 4, 5, 7, 8, 11, 12, 15, 19], 'strided': [2, 4, 6, 8, 10, 12, 14, 16, 19, 20], 'contiguous': None},
+    'shifted': {'irregular': [2, 3, 5, 6, 8, 9, 12, 13, 15, 20], 'strided': list(range(3, 23, 2)), 'contiguous': list(range(4, 14))},
+    'last': {'irregular': [1, 2, 4, 5, 7, 8, 11, 12, 14, 20], 'strided': list(range(2, 20, 2)) + [21], 'contiguous': list(range(3, 12)) + [13]},
+    'first': {'irregular': [0, 2, 4, 5, 7, 8, 11, 12, 14, 19], 'strided': [1] + list(range(4, 22, 2)), 'contiguous': [1] + list(range(4, 13))},
+}
+
+
+def run_misaligned(pe, acc, case):
+    """Members of one list / array / correlator that live on DIFFERENT configuration lists of the same length: the format stores
+    one configuration list per structure, so the writer (or the Corr constructor) has to refuse -- or the round trip is faithful."""
+    for base, how, nrep, where in itertools.product(MIS_BASE, MIS_OTHER, (1, 2), ('first', 'second')):
+        other = MIS_OTHER[how][base]
+        if other is None or (nrep == 1 and where == 'second'):
+            continue
+        if 'base' in case and (case['base'], case['how'], case['nrep'], case['where']) != (base, how, nrep, where):
+            continue
+        la = {'A|r1': MIS_BASE[base]} if nrep == 1 else {'A|r1': MIS_BASE['contiguous'] if where == 'second' else MIS_BASE[base], 'A|r2': MIS_BASE[base] if where == 'second' else MIS_BASE['contiguous']}
+        lb = dict(la)
+        lb['A|r2' if (nrep == 2 and where == 'second') else 'A|r1'] = other
+
+        def mk(lay, k):
+            names = sorted(lay)
+            return pe.Obs([alpha.rng('c11mis', base, how, n, k).normal(1.0, 0.3, size=len(lay[n])) for n in names], names, idl=[list(lay[n]) for n in names])
+        a, b, c = mk(la, 0), mk(lb, 1), mk(la, 2)
+        for sname, build_s in (('list', lambda: [a, b]), ('list3-last', lambda: [a, c, b]), ('array', lambda: np.array([a, b], dtype=object)),
+                               ('array22', lambda: np.array([[a, c], [c, b]], dtype=object)), ('Corr', lambda: pe.Corr([a, b])), ('Corr-None', lambda: pe.Corr([a, None, c, b]))):
+            sub = dict(case, base=base, how=how, nrep=nrep, where=where, sname=sname)
+            try:
+                s = build_s()
+                text, back = roundtrip_string(pe, s, 1)
+            except Exception:
+                acc.ok(('mis', base, how, nrep, where, sname), True, 'misaligned-refused')
+                continue
+            bad = same_struct(s, back, pe)
+            if bad:
+                acc.fail('json:misaligned-members:%s' % sname.split('-')[0].rstrip('0123456789'), sub, '%s whose members live on %s and %s (%s, %d replica(s)) was written, but does not come back: %s' % (
+                    sname, la, lb, how, nrep, bad))
+            else:
+                acc.ok(('mis', base, how, nrep, where, sname), True, 'misaligned-faithful')
+    acc.sample({'kind': 'misaligned', 'bases': sorted(MIS_BASE), 'differences': sorted(MIS_OTHER), 'structures': ['list', 'list3', 'array', 'array22', 'Corr', 'Corr-None']})
 
 
 def run_structs(pe, acc, case, d):
